@@ -640,7 +640,7 @@ class SymInt(S.SymI):
         return neg, digit_cells(a, k)
 
     def __format__(self, spec):
-        m = re.fullmatch(r"(\d*)d", spec)
+        m = re.fullmatch(r"(\d*)d?", spec) if spec else None
         if m:
             w = _py_int(m.group(1) or 0)
             neg, ds = self._digits()
